@@ -13,13 +13,17 @@ EXPLANATION = ("R20.1 framing: on every path of every emitting body of the file 
                "DeferredNow the clock is read only by now(), through Option::get_or_insert_with, and every other accessor goes through now() (so the "
                "first reading is cached also in UTC mode); R20.4 each provided format function renders record.args() through Display exactly once "
                "on every successful path and takes level/module/file/line from the record's accessors. R20.5 each output stream is rendered with its own configured format function (duplication table shared with R13.3)."
-               " R20.6 (= R13.7) stream wiring of the format functions from the Logger setters to the writers' fields.")
+               " R20.6 (= R13.7) stream wiring of the format functions from the Logger setters to the writers' fields."
+               " R20.7 line-ending and format wiring: use_windows_line_ending() reaches config.line_ending as CRLF; format_for_files reaches the file writer, format_for_writer the additional writer (shared configuration-wiring tables, rules/cfgwiring.py).")
 ASSUMPTIONS = ["serde_json::to_string yields one valid single-line JSON object (serde_json)", "nu_ansi_term::paint only wraps the text", "chrono formatting"]
 NOT_DECIDED = ["byte-exact rendering", "JSON escaping", "ANSI wrapping"]
 FLOORS = {'R20.1': 4, 'R20.2': 9, 'R20.3': 4, 'R20.4': 9}
 
 
 def run(R, ctx):
+    R.rule('R20.7', 'line-ending and format wiring: use_windows_line_ending() reaches config.line_ending as CRLF; format_for_files reaches the file writer, format_for_writer the additional writer')
+    import cfgwiring
+    cfgwiring.config_wiring(R, ctx, 'R20.7', 'C20')
     f, cg = ctx.f, ctx.cg
     R.rule('R20.1', 'COUNT-ON-PATHS(line ending) per emitting body; macro arms without explicit newline')
     R.rule('R20.2', 'PURITY(format functions: clock only through the now parameter)')
